@@ -92,6 +92,74 @@ func LogRecords(r *rand.Rand, n int) [][]byte {
 	return out
 }
 
+// ---------------------------------------------------------------- aliasing hash store
+//
+// AliasStore is a dense hash store whose ReadHashes result ALIASES memory it owns, as a store
+// backed by an array or a memory-mapped file may: a run of consecutive positions is served as a
+// window (sub-slice) onto the array, any other request is built once and the same slice is
+// handed out again for the same request (memoised). HashReader callers are documented only to
+// read the result; Tampered reports whether one of them wrote to it.
+type AliasStore struct {
+	Hashes []tlog.Hash            // the store, served without copying
+	shadow []tlog.Hash            // private copy, never handed out
+	memo   map[string][]tlog.Hash // memoised non-consecutive results
+	keys   map[string][]int64
+}
+
+func NewAliasStore() *AliasStore {
+	return &AliasStore{memo: map[string][]tlog.Hash{}, keys: map[string][]int64{}}
+}
+
+// Add appends hashes to the store.
+func (s *AliasStore) Add(hs []tlog.Hash) {
+	s.Hashes = append(s.Hashes, hs...)
+	s.shadow = append(s.shadow, hs...)
+}
+
+func (s *AliasStore) ReadHashes(indexes []int64) ([]tlog.Hash, error) {
+	consecutive := len(indexes) > 0
+	for i, ix := range indexes {
+		if ix < 0 || ix >= int64(len(s.Hashes)) {
+			return nil, fmt.Errorf("aliasstore: index %d out of range [0,%d)", ix, len(s.Hashes))
+		}
+		if ix != indexes[0]+int64(i) {
+			consecutive = false
+		}
+	}
+	if consecutive {
+		a, b := indexes[0], indexes[0]+int64(len(indexes))
+		return s.Hashes[a:b:b], nil
+	}
+	key := fmt.Sprint(indexes)
+	if out, ok := s.memo[key]; ok {
+		return out, nil
+	}
+	out := make([]tlog.Hash, len(indexes))
+	for i, ix := range indexes {
+		out[i] = s.Hashes[ix]
+	}
+	s.memo[key] = out
+	s.keys[key] = append([]int64(nil), indexes...)
+	return out, nil
+}
+
+// Tampered compares everything the store has handed out with its private copy; "" if intact.
+func (s *AliasStore) Tampered() string {
+	for i := range s.shadow {
+		if s.Hashes[i] != s.shadow[i] {
+			return fmt.Sprintf("stored position %d was overwritten through a ReadHashes result (now %v, stored %v)", i, s.Hashes[i], s.shadow[i])
+		}
+	}
+	for key, out := range s.memo {
+		for i, ix := range s.keys[key] {
+			if out[i] != s.shadow[ix] {
+				return fmt.Sprintf("the memoised result of ReadHashes(%s) was overwritten at [%d] (position %d)", key, i, ix)
+			}
+		}
+	}
+	return ""
+}
+
 // ---------------------------------------------------------------- readers and their wire form
 
 // IndexHash is one entry of a reader table.
